@@ -63,7 +63,11 @@ func (e *establishLinkHandler) HandleValueAdded(inst directive.Instance, val dir
 			Debug("starting peer hold-open tracking")
 		go func() {
 			e.mtx.Lock()
-			e.rigidRef = e.di.AddReference(nil, false)
+			// re-check: the values may have been removed, or another
+			// reference added, before this routine was scheduled.
+			if e.valCount > 0 && e.rigidRef == nil {
+				e.rigidRef = e.di.AddReference(nil, false)
+			}
 			e.mtx.Unlock()
 		}()
 	}
